@@ -215,11 +215,11 @@ def run(ctx):
     # ---- hash-seed differential
     nseeds = ctx.size(4, 16)
     if not t4_ok:
-        nseeds = 16          # search around the broken obligation at thorough bounds
+        nseeds = 8           # search around the broken obligation with more seeds
     seeds = [0, 1, 7, 42, 99, 123, 1000, 2024, 31337, 65535, 5, 11, 13, 17, 19, 23][:nseeds]
     rng = ctx.rng
     tg = TextGen(rng)
-    texts = [tg.template() for _ in range(ctx.size(700, 8000) * (2 if not t4_ok else 1))]
+    texts = [tg.template() for _ in range(ctx.size(700, 8000))]
     trees = []
     for i in range(ctx.size(500, 6000)):
         g = G.SGen(rng, size=rng.randint(4, ctx.size(12, 25)), pool=["a", "b", "c", "n", "zeta", "q9"])
